@@ -87,7 +87,7 @@ namespace MEDDLY {
                     const edge_value &av, node_handle ap, oper_item &result);
 
         protected:
-            void _compute(node_handle A, oper_item &result);
+            void _compute(int L, node_handle A, oper_item &result);
 
         private:
             ct_entry_type* ct;
@@ -126,52 +126,69 @@ void MEDDLY::range_templ<RTYPE>::compute(int L, unsigned in,
 #ifdef TRACE
     out.indentation(0);
 #endif
-    _compute(ap, result);
+    _compute(L, ap, result);
 }
 
 template <class RTYPE>
-void MEDDLY::range_templ<RTYPE>::_compute(node_handle A, oper_item &r)
+void MEDDLY::range_templ<RTYPE>::_compute(int L, node_handle A, oper_item &r)
 {
-    //
-    // Terminal case
-    //
+    const int Alevel = argF->getNodeLevel(A);
+
     if (argF->isTerminalNode(A)) {
+        //
+        // Terminal case
+        //
         RTYPE::initItem(r, A);
-        return;
+    } else {
+        //
+        // Check compute table
+        //
+        ct_vector key(ct->getKeySize());
+        ct_vector res(ct->getResultSize());
+        key[0].setN(A);
+        if (ct->findCT(key, res)) {
+            RTYPE::set(r, res[0]);
+        } else {
+            //
+            // Do computation
+            //
+            const int nextL = argF->isForRelations()
+                ? MXD_levels::downLevel(Alevel)
+                : MDD_levels::downLevel(Alevel);
+            unpacked_node* Au = unpacked_node::newFromNode(argF, A, FULL_ONLY);
+            _compute(nextL, Au->down(0), r);
+            oper_item tmp(RTYPE::getOpndType());
+            for (unsigned i=1; i<Au->getSize(); i++) {
+                _compute(nextL, Au->down(i), tmp);
+                RTYPE::updateItem(r, tmp);
+            }
+
+            //
+            // Cleanup
+            //
+            unpacked_node::Recycle(Au);
+
+            //
+            // Save result in CT
+            //
+            RTYPE::set(res[0], r);
+            ct->addCT(key, res);
+        }
     }
 
     //
-    // Check compute table
+    // In an identity-reduced relation, an edge that skips a primed level
+    // stands for x' = x: every off-diagonal entry is 0, so 0 is in the range.
     //
-    ct_vector key(ct->getKeySize());
-    ct_vector res(ct->getResultSize());
-    key[0].setN(A);
-    if (ct->findCT(key, res)) {
-        RTYPE::set(r, res[0]);
-        return;
+    if (A && argF->isIdentityReduced()) {
+        const bool skipsPrimed = (L<0)  ? (Alevel != L)
+                                        : ((L>0) && (Alevel != L) && (Alevel != -L));
+        if (skipsPrimed) {
+            oper_item zero(RTYPE::getOpndType());
+            RTYPE::initItem(zero, 0);
+            RTYPE::updateItem(r, zero);
+        }
     }
-
-    //
-    // Do computation
-    //
-    unpacked_node* Au = unpacked_node::newFromNode(argF, A, FULL_ONLY);
-    _compute(Au->down(0), r);
-    oper_item tmp(RTYPE::getOpndType());
-    for (unsigned i=1; i<Au->getSize(); i++) {
-        _compute(Au->down(i), tmp);
-        RTYPE::updateItem(r, tmp);
-    }
-
-    //
-    // Cleanup
-    //
-    unpacked_node::Recycle(Au);
-
-    //
-    // Save result in CT
-    //
-    RTYPE::set(res[0], r);
-    ct->addCT(key, res);
 }
 
 // ******************************************************************
